@@ -131,6 +131,21 @@ CHECKS["C13"] = dict(
           "written out in DESIGN.md and not mechanised."),
     ref="DESIGN.md section 4 C13")
 
+CHECKS["C19"] = dict(
+    engine="E1",
+    technique="contract-based deductive verification: VCs from the AST of the fluid property classes for scalar / ndarray / Series queries (isinstance branches path-split, missing attributes are failed safety obligations), integral lemmas, pump curve scalar path; bounded stand-in for the pump array branch; exhaustive evaluation of the library data files",
+    text=("Every property class is proved to return its documented value shaped like the query and the integral F(u)-F(l) of an "
+          "antiderivative of that value (trapezoid for the interpolated class), for python scalars, arrays and Series alike; the integral "
+          "lemmas (antisymmetry, additivity, consistency) are proved over these contracts; the pump lift is proved to be "
+          "max(0, polynomial(3600 v)) for v >= 0 and 0 for reverse flow on the scalar path; mixture rules conserve mass and stay within "
+          "component bounds for 1..4 components; library compressibility slopes are compared with the stored derivatives and call_lib's "
+          "file/class wiring is checked."),
+    note=(TB + "interp1d / poly1d / polyint are uninterpreted functions (assumed: polyint is an antiderivative of poly1d, interp1d interpolates "
+          "and extrapolates linearly); A1. BOUNDED, not proved: the array branch of PumpStdType.get_pressure (flow vectors of length <= 3 over "
+          "a 6-point grid, 4 pump curves) and the mixture rules beyond 4 components. Additivity of the interpolated integral across table "
+          "kinks does not hold (trapezoid) and is not claimed. Pipe standard-type parameters reaching created pipes is part of C16."),
+    ref="DESIGN.md section 4 C19")
+
 NOT_APPLICABLE = {
     "C08": "uniqueness of the solution of the nonlinear system within tolerances and convergence of damped Newton in floating point: a whole-history/analytic property, no pre/post contract within reach expresses it (DESIGN.md section 5)",
     "C15": "the save/load round trip is the behaviour of pandapower/pandas/json/pickle/scipy object state; a contract strong enough would have to assume the property (DESIGN.md section 5)",
